@@ -17,4 +17,4 @@ def run(ctx):
         {"world": "happy", "sim": 3 if q else 20, "steps": 7 if q else 10, "avoid": True, "crash": True, "cap": 200 if q else 3000, "seeds": 1 if q else 3},
     ]
     design = [("Mirror_c04.cfg", {"MaxSteps": 4 if q else 5, "AllowCrash": "TRUE"}, "C04_Chain, C04_Immutable, C04_Monotone with crash after every store write")]
-    return mirrorcheck.run(ctx, {"C04"}, plans, design_cfgs=design)
+    return mirrorcheck.run(ctx, {"C04"}, plans, design_cfgs=design, suite="mirror")
